@@ -195,3 +195,54 @@ impl<I: Iterator> Iterator for Hinted<I> {
         }
     }
 }
+
+/// What a source iterator handed to `extend` / `collect` may do besides yielding its values.
+#[derive(Clone, Copy, Debug, PartialEq, Eq, Serialize, Deserialize)]
+pub enum SourceFault {
+    /// panics when asked for value number `j` (0-based), after yielding `j` values; the caller catches the panic and
+    /// keeps using the collection
+    PanicAfter(usize),
+    /// returns `None` once after `j` values although more are available (a non-fused source polled again would go
+    /// on): the values of the sequence are the first `j`
+    NoneAfter(usize),
+}
+
+pub const SOURCE_FAULT_MARK: &str = "SIMULATED-SOURCE-FAULT";
+
+/// A source iterator under the simulator's control (the seam through which `Extend` / `FromIterator` meet faults).
+pub struct FaultySource<I> {
+    pub inner: I,
+    pub fault: SourceFault,
+    pub yielded: usize,
+    pub none_given: bool,
+}
+
+impl<I: Iterator> FaultySource<I> {
+    pub fn new(inner: I, fault: SourceFault) -> Self {
+        FaultySource { inner, fault, yielded: 0, none_given: false }
+    }
+}
+
+impl<I: Iterator> Iterator for FaultySource<I> {
+    type Item = I::Item;
+    fn next(&mut self) -> Option<I::Item> {
+        match self.fault {
+            SourceFault::PanicAfter(j) if self.yielded == j => {
+                panic!("{SOURCE_FAULT_MARK}: the source iterator fails after {j} values")
+            }
+            SourceFault::NoneAfter(j) if self.yielded == j && !self.none_given => {
+                self.none_given = true;
+                return None;
+            }
+            _ => {}
+        }
+        let x = self.inner.next();
+        if x.is_some() {
+            self.yielded += 1;
+        }
+        x
+    }
+    fn size_hint(&self) -> (usize, Option<usize>) {
+        (0, None)
+    }
+}
